@@ -328,6 +328,11 @@ func RunNested(out string) {
 					w.Put(nestedUDP(d, q, how))
 				}
 				w.Put(nestedTCP(d, q, "con"))
+				if d <= 2 && (k == 0 || rec.Tier() == "thorough") { // the library's own servers and clients over loopback sockets, all four transports
+					for _, tr := range []string{"udp", "dtls", "tcp", "tls"} {
+						w.Put(nestedSockets(tr, d, q))
+					}
+				}
 				if d == 1 { // (no loop replacement while a handler waits for a Pong: one level only)
 					w.Put(nestedTCP(1, q, "ping"))
 				}
